@@ -46,5 +46,15 @@ claim("C07", "proof",
 claim("C08", "proof",
       "C08_repeatable(_step) (what a snapshot sees of any key is unchanged by any operation of anybody incl. the collector), C08_atomic_visibility (a commit's versions carry one stamp: a snapshot begun before sees none, one begun after has all below its begin stamp), C08_concrete_snapshot (the concrete snapshot read equals the specification's after any collector passes). Real-code side: skeletons of Begin/UpdateTx/cleaner.DeleteOld (one number per commit under the main lock; horizon lock) + enforced schedules (fractured-read and Begin-vs-GC witnesses replayed on every run).",
       "DESIGN.md §9 C08", CONC_NOTE, CONC_TECH)
-for p in ["C04","C05","C10","C11","C12","C15","C16","C17"]:
+claim("C12", "proof",
+      "On the small-step model of the read-writer (mutex, condition variable with tickets, closed flag, buffer, wait group; writer script of any write sizes incl. 0, storing goroutine): C12_concat (in every reachable state where Close has returned the storer consumed exactly the concatenation, EOF only after closed and empty), C12_no_stuck (no deadlock / lost wake-up in any reachable state before Close returned), C12_writer_progress (decreasing measure); witnesses C12_empty_write_witness and C12_lost_wakeup_witness for the pin's code. Real code: enforced schedules on the real readWriter at hook points (both repaired witness schedules replayed first), Create/Write*/Close/Get with random splits in the C01 correspondence. PARTIAL: the gRPC Create path (stream writer) is covered by the skeleton tie and the chunking theorems of C11 only once those are built; termination under fairness is trusted.",
+      "DESIGN.md §9 C12",
+      "Lean kernel; sync.Mutex/sync.Cond/WaitGroup/atomic semantics modelled (DESIGN §6); fair scheduler trusted; hook scheduler + extractor trusted",
+      "Lean 4 proof (invariant over an interleaved small-step protocol model, no-stuck + variant) + skeleton tie + enforced-schedule exploration on the real code")
+claim("C16", "proof",
+      "PARTIAL. On the model of the deferred-send path: C16_conservation (no event lost or duplicated, any reachable state), C16_every_job_delivered (when nothing can move every event has been delivered exactly as often as sent, no further Send needed), C16_flusher_covers (a non-empty list always has a running flusher), C16_handoff_witness for the pin. Channel/workers/Stop/Run orders/prompt return are exercised on the real pool (handoff orchestrated with hook points, send-before-run, stop-before-run, run-twice, double Stop x200, random stress), not proved.",
+      "DESIGN.md §9 C16",
+      "Lean kernel; critical sections under listM as atomic steps (trusted); channel, workers, context cancellation not modelled",
+      "Lean 4 proof (invariant + conservation over a small-step model of the deferred-send protocol) + skeleton tie + orchestrated/randomised runs of the real pool")
+for p in ["C04","C05","C10","C11","C15","C17"]:
     na(p, PENDING)
